@@ -10,7 +10,7 @@ the template gets fully signed and a balanced one passes validation.ValidateTx. 
 LedgerBigNat limbs.
   design : BuilderDesign — on an abstract template space the post-condition implies conservation
            (C01 for the built transaction) and is satisfiable (witness).
-  T      : harness/cmd/c27: 3 accounts (single key, 2-of-3 multisig, single key) with keys in a real
+  T      : harness/cmd/c27: 6 accounts (single key x2, 2-of-3, 1-of-2, 2-of-2, 3-of-3; every ordered quorum-subset of co-signers) with keys in a real
            pseudo-HSM, seeded random UTXO sets in the wallet DB (3 assets, amounts 1 .. 2^58), seeded
            random action lists (spend incl. split actions merged by account.MergeSpendAction, particular
            output, pay to address / raw program / vote output, retire; some unfundable, some unbalanced);
@@ -92,11 +92,17 @@ def run(ctx):
     if not controls:
         raise Infra("no built case available for the negative control")
     stats = dict(balanced_fundable=0, unfundable=0, unbalanced=0, rejected=0)
+    covered = set()
     for c in cases:
         v = verdict[c["id"]]
         r = v["rules"]
-        if not r["scoped"]:
-            raise Infra("driver produced a request outside the specification's scope (case %d)" % c["id"])
+        if not r["scoped"] or not r["signers"]:
+            raise Infra("driver produced a request / signing plan outside the specification's scope (case %d)" % c["id"])
+        spenders = {a["acct"] for a in c["actions"] if a["kind"] == "spend"}
+        quorum = {a["name"]: (a["quorum"], a["nkeys"]) for a in c["accounts"]}
+        plans = [(p["acct"], tuple(p["order"])) for p in c["cosigners"] if p["acct"] in spenders]
+        if r["fundable"] and r["balanced"] and c["built"]:
+            covered.update(plans)
         if not r["fundable"]:
             stats["unfundable"] += 1
         elif not r["balanced"]:
@@ -110,30 +116,47 @@ def run(ctx):
             continue
         stats["rejected"] += 1
         kinds = sorted({a["kind"] + (":" + a["out"] if a["kind"] == "pay" else "") for a in c["actions"]})
-        multisig = any(a["kind"] == "spend" and a["acct"] == "acc2" for a in c["actions"])
+        # class of the signing plan: M-of-N of the spending multi-key accounts, and whether a signature
+        # sits in a key slot beyond the first M ("late-slot") or the holders signed out of key order
+        cls = []
+        for acct, order in sorted(plans):
+            m, nk = quorum[acct]
+            cls.append("%dof%d:%s" % (m, nk, "late-slot" if max(order) > m else
+                                      ("reordered" if list(order) != sorted(order) else "first-slots")))
         for rule in RULES:
             if r[rule]:
                 continue
-            sig = "%s:%s" % (rule, "multisig" if multisig and rule in ("signed", "valid") else "any")
+            sig = "%s:%s" % (rule, ("multisig:" + "+".join(sorted(set(cls)))) if cls and rule in ("signed", "valid") else "any")
             ctx.violation(sig, "rule '%s' of Builder!Rules fails: actions %s -> built=%s signed=%s valid=%s builderr=%s validerr=%s tx=%s (action kinds %s)"
                           % (rule, json.dumps(c["actions"])[:700], c["built"], c["signed"], c["valid"], c["builderr"][:200],
                              c["validerr"][:200], json.dumps(c["tx"])[:700], kinds), c)
+    # every ordered quorum-subset of every multi-key account must have been exercised by a spend
+    want_plans = set()
+    import itertools
+    for a in cases[0]["accounts"]:
+        if a["nkeys"] > 1:
+            for o in itertools.permutations(range(1, a["nkeys"] + 1), a["quorum"]):
+                want_plans.add((a["name"], o))
+    if not want_plans or (want_plans - covered and not ctx.violations):
+        raise Infra("signing plans not exercised by a built, balanced spend: %s" % sorted(want_plans - covered))
     s = h["summary"]
     ctx.finish("model_checking", dict(
         states=res["d"].distinct + tstates, transitions=res["d"].generated + tstates,
         traces_validated_against_impl=len(cases),
         samples=[{k: h["samples"][0][k] for k in ("shape", "actions", "built", "signed", "valid", "tx")}] if h["samples"] else [],
         cases=len(cases), built=s.get("built"), valid=s.get("valid"), with_multisig_spend=s.get("with_multisig_spend"),
-        distinct_action_shapes=s.get("distinct_shapes"), real_hsm_cases=s.get("real_hsm_cases"), **stats,
+        distinct_action_shapes=s.get("distinct_shapes"), signing_plans_covered=len(covered & want_plans),
+        signing_plans_total=len(want_plans), real_hsm_cases=s.get("real_hsm_cases"), **stats,
         negative_control="template with one output amount altered / with a foreign input condemned by TraceBuilder",
-        rule="T: %d seeded random (funding set, action list) cases over 3 accounts x 3 assets; every case judged by TLC; design: "
+        rule="T: %d seeded random (funding set, action list) cases over 6 accounts (4 multi-key, all ordered co-signer quorums) x 3 assets; every case judged by TLC; design: "
              "post-condition => conservation on %d abstract templates" % (n, res["d"].distinct),
     ), assumptions=[
         "requests are scoped as the API layer produces them: spend actions merged per (account, asset); particular outputs are "
         "only picked from (account, asset) pairs without a spend action",
         "'fundable' = the account holds at least the requested amount of the asset (no other reservations, all outputs mature)",
         "'balanced' = non-BTM requested = promised, BTM leaves at least 0.1 BTM of fee; only balanced requests must validate",
-        "multi-signature templates are passed to Sign once per required signature (one signature per call by design)",
+        "multi-key accounts (2-of-3, 1-of-2, 2-of-2, 3-of-3): the co-signers are part of the case — every ordered quorum-subset of "
+        "the key holders occurs; one holder signs per Sign call (one signature per call by design), the others refuse",
         "SerializedSize is set as txbuilder.FinalizeTx does before validation; program converter = identity (no BCRP calls)",
         "all but the first few cases sign with keys loaded once through the pseudo-HSM (XSign's own decrypt is scrypt-bound)",
         "veto, register-contract and chain (auto-merge) spends are not generated",
